@@ -12,6 +12,8 @@ nondeterminism inside bitsets/graphviz/json (outside /repo).
 import ast
 
 from .. import taint
+
+GENERIC = False   # the order-taint analysis touches every function; the generic lints belong to the other properties
 from ..astutil import chain, src, walk
 
 
